@@ -86,7 +86,7 @@ def fidelity(res):
                     "E8": lambda t: t.strip().startswith("|"),
                     "E9": lambda t: re.match(r"\s*let mut txn = self\.storage\.txn\([A-Za-z_0-9]+\)\?;\s*$", t) is not None,
                     "E11": lambda t: True,
-                    "E14": lambda t: re.match(r"pub\((crate|super)\)$", t.strip()) is not None,
+                    "E14": lambda t: re.match(r"pub(\((crate|super)\))?$", t.strip()) is not None,
                     "E12": lambda t: t.strip().startswith("("),
                 }.get(rule, lambda t: False)(txt)
                 if not ok:
